@@ -388,11 +388,12 @@ type Oblig struct {
 	PathNo  int
 	Clause  string
 	Inputs  map[string]string // driver-visible input name -> SMT term
+	ValueNames []string
 }
 
 var symRe = regexp.MustCompile(`\|[^|]*\|`)
 
-func (E *Engine) render(assumes []string, goal string, values []string) string {
+func (E *Engine) render(assumes []string, goal string, values []inputTerm) string {
 	f := &SMTFile{Sorts: []string{SStr}}
 	all := append(append([]string{}, assumes...), goal)
 	all = append(all, E.globalFacts...)
@@ -451,10 +452,18 @@ func (E *Engine) render(assumes []string, goal string, values []string) string {
 	f.Assumes = append(append([]string{}, E.globalFacts...), assumes...)
 	f.Goal = goal
 	for _, v := range values {
-		if seen[v] || !strings.HasPrefix(v, "|") {
-			f.Values = append(f.Values, v)
+		ok := true
+		for _, m := range symRe.FindAllString(v.Term, -1) {
+			if !seen[m] {
+				ok = false
+			}
+		}
+		if ok {
+			f.Values = append(f.Values, v.Term)
+			f.ValueNames = append(f.ValueNames, v.Name)
 		}
 	}
+	E.lastValueNames = f.ValueNames
 	return f.Render()
 }
 
@@ -485,6 +494,7 @@ func (E *Engine) oblige(st *State, kind, site, goal, pretty, pos string, cl *Cla
 		ob.Trivial = true
 	} else {
 		ob.SMT = E.render(st.pc, goal, c.inputs)
+		ob.ValueNames = E.lastValueNames
 	}
 	E.Obligs = append(E.Obligs, ob)
 }
